@@ -275,6 +275,7 @@ func (r *Runner) quietPhase() {
 		w.Advance(A+5*E, r.sample)
 		lagging = r.laggards(L)
 	}
+	r.atRest = len(lagging) == 0
 	if len(lagging) > 0 {
 		w.Violate("C12", "R2", "C12/R2/member-not-caught-up-after-quiet-period", "%d ms after faults stopped servers %v have not reached the leader's (%s) state: %s", w.Now()-quietStart, lagging, L.ID(), r.describe())
 	}
